@@ -8,9 +8,16 @@ package fakeredis
 //
 // Like redis, KEYS and SCAN treat the exact pattern "*" as "all keys" without
 // calling the matcher; see matchKey.
-func globMatch(p, s []byte) bool { return globMatchN(p, s, 0) }
+func globMatch(p, s []byte) bool {
+	skip := false
+	return globMatchN(p, s, &skip, 0)
+}
 
-func globMatchN(p, s []byte, nesting int) bool {
+// skipLonger is redis' skipLongerMatches (the fix for CVE-2022-36021): once
+// the rest of the pattern after some `*` failed to match at every position of
+// the rest of the string, letting an earlier `*` swallow more cannot help, so
+// all enclosing `*` loops stop. It only prunes work, never changes the result.
+func globMatchN(p, s []byte, skipLonger *bool, nesting int) bool {
 	if nesting > 1000 { // same protection against abusive patterns as redis
 		return false
 	}
@@ -24,11 +31,15 @@ func globMatchN(p, s []byte, nesting int) bool {
 				return true
 			}
 			for len(s) > 0 {
-				if globMatchN(p[1:], s, nesting+1) {
+				if globMatchN(p[1:], s, skipLonger, nesting+1) {
 					return true
+				}
+				if *skipLonger {
+					return false
 				}
 				s = s[1:]
 			}
+			*skipLonger = true
 			return false
 		case '?':
 			s = s[1:]
